@@ -14,12 +14,24 @@ in-flight map / heap; any schedule) plus `msg.pri`, heap keys and the scan as `P
   stale heap entry of the shared object; its next delivery rewrites `pri` in place; the root is then an entry
   whose object is not due, and message X, due for 1000 time units, is invisible to `processInFlightQueue`.
 * `stale_entry_impossible_fixed` — the same schedule in the F48 shape: the late REQ meets a heap entry, removes it,
-  no stale entry, X is released. (The GENERAL completeness statement `ScanComplete true` for the fixed shape is NOT
-  proved here — only its instance on the witness schedule and the projection facts it rests on; see docs/C04.md.)
+  no stale entry, X is released.
+* **`scan_complete_micro_fixed`** (round 9) — the GENERAL completeness statement `ScanComplete true` for the F48 shape
+  (the committed tree, /repo 88fd245; pinned by `Tie.Chan.inflightPushShape_eq`): along EVERY schedule of critical
+  sections, a scan that finds nothing due leaves no in-flight message with deadline `≤ t`. Invariant
+  `Proofs.ChanMicroTF.FInv` (`heap_invariants_fixed`): no pending heap push, heap ids distinct, entry key = the
+  object's current `pri`, entry id in the map or in the hand of an answering goroutine, every in-map id has its entry.
+* `released_by_first_scan_after_deadline_micro` — hence a scan at `t ≥ deadline` cannot return "nothing due" while
+  the message is in flight: it pops something, and when it returns idle the message has been released.
+* `stale_exit_needs_pending_answer` (audit A11) — the scan's other exit (`PeekAndShift` handed out an object that is no
+  longer in the map: `goto exit`, `dirty = true`) happens ONLY while a FIN / REQ / TOUCH of that very message is between
+  `popInFlightMessage` and `removeFromInFlightPQ`; `no_stale_exit_when_quiescent`: with no answer in that window every
+  scan step succeeds. What is NOT claimed: that such a scan is repeated at once (the 25 % dirty loop decides; a due entry
+  behind the stale one waits for the next scan round — wall-clock one `QueueScanInterval`).
 * `projects_to_untimed`, `ownership_transports` — every timed schedule is a `ChanMicro` schedule: `MInv` and with
   it all theorems of `Nsq.Props.C02Micro` hold for the timed model.
 -/
 import Nsq.Proofs.ChanMicroT
+import Nsq.Proofs.ChanMicroTF
 namespace Nsq.Props.C04Micro
 open Nsq.Model.ChanMicro Nsq.Model.ChanMicroT Nsq.Proofs.ChanMicro Nsq.Proofs.ChanMicroT
 
@@ -83,5 +95,76 @@ example : (runT false {} a3Ops).tlog.filter (fun e => match e with | .timedOut .
 example : ∃ d, lastStamp [TEv.stamp 1 10] 1 = some d ∧ d ≤ 1000 :=
   never_early_micro_whole false [.plain (.put 1), .delMapPush 1 1 0 10, .plain (.heapPush 1), .scanPop 1 1000] [] _ 1 1000 (by decide)
 example : MInv (runT false {} a3Ops).ms := ownership_transports false a3Ops
+
+
+/-! ## the F48 shape (committed): completeness for EVERY schedule (round 9; audit A3, A11) -/
+open Nsq.Proofs.ChanMicroTF
+
+/-- the invariants (a)–(f) of the F48 shape hold along every schedule from the empty channel: no heap push is
+pending, heap entry ids are distinct and are the untimed heap, an entry's key is its object's CURRENT `pri` (the
+"ordered by insertion key, tested on current pri" abstraction of `PeekAndShift` is therefore exact), an entry's id is
+in the in-flight map or held by an answering goroutine, and every in-map id has its entry -/
+theorem heap_invariants_fixed (ops : List TOp) :
+    let s := runT true {} ops
+    (∀ id, Pend.push id ∉ s.ms.pend) ∧ (s.hk.map Prod.fst).Nodup ∧ s.hk.map Prod.fst = s.ms.heap ∧
+    (∀ e ∈ s.hk, priOf s e.1 = some e.2) ∧
+    (∀ e ∈ s.hk, e.1 ∈ s.ms.map ∨ ∃ k a, Pend.ans k e.1 a ∈ s.ms.pend) ∧
+    (∀ id ∈ s.ms.map, ∃ d, priOf s id = some d ∧ (id, d) ∈ s.hk) := by
+  have h := runT_finv finv_init ops
+  exact ⟨h.nopush, h.nodup, h.heapEq, h.keyPri, h.owned, fun id hm => map_has_entry h hm⟩
+
+/-- **`ScanComplete` holds for the F48 shape, every schedule** (the statement that is FALSE of the pre-F48 shape:
+`scan_complete_micro_false`) -/
+theorem scan_complete_micro_fixed : ScanComplete true := by
+  intro ops t hi id hm d hd
+  exact scanIdle_complete (runT_finv finv_init ops) hi id hm d hd
+
+/-- released by the first scan at/after the deadline, micro granularity: while `id` is in flight with deadline
+`d ≤ t`, `processInFlightQueue(t)` cannot return "nothing due" — and whenever a scan does return idle (after any
+number of its own pops and any interleaved steps of other goroutines, `more`), nothing with deadline `≤ t` is in flight -/
+theorem released_by_first_scan_after_deadline_micro (ops : List TOp) (id : Nat) (d t : Int)
+    (hm : id ∈ (runT true {} ops).ms.map) (hd : priOf (runT true {} ops) id = some d) (hle : d ≤ t) :
+    (stepT true (runT true {} ops) (.scanIdle t)).2 ≠ .ok ∧
+    ∀ more : List TOp, (stepT true (runT true {} (ops ++ more)) (.scanIdle t)).2 = .ok →
+      ∀ i ∈ (runT true {} (ops ++ more)).ms.map, ∀ di, priOf (runT true {} (ops ++ more)) i = some di → t < di := by
+  refine ⟨fun hi => ?_, fun more hi => scan_complete_micro_fixed (ops ++ more) t hi⟩
+  have := scan_complete_micro_fixed ops t hi id hm d hd
+  omega
+
+/-- audit A11: the scan's stale exit (`msg = nil; dirty = true; goto exit`) needs a FIN / REQ / TOUCH of that very
+message between its two critical sections -/
+theorem stale_exit_needs_pending_answer (ops : List TOp) (id : Nat) (t : Int)
+    (hf : (stepT true (runT true {} ops) (.scanPop id t)).2 = .fail) :
+    ∃ k a, Pend.ans k id a ∈ (runT true {} ops).ms.pend :=
+  stale_pop_has_answer (runT_finv finv_init ops) hf
+
+/-- … so with no answer in that window the scan never exits early: every `PeekAndShift` that returns an object
+times it out -/
+theorem no_stale_exit_when_quiescent (ops : List TOp) (id : Nat) (t : Int)
+    (hq : ∀ k i a, Pend.ans k i a ∉ (runT true {} ops).ms.pend) :
+    (stepT true (runT true {} ops) (.scanPop id t)).2 ≠ .fail := by
+  intro hf
+  obtain ⟨k, a, hp⟩ := stale_exit_needs_pending_answer ops id t hf
+  exact hq k id a hp
+
+/-- non-vacuity: on the audit's schedule (F48 shape) the idle scan at 2999 is accepted and both in-flight messages
+have later deadlines; at 4000 it is refused (X, deadline 3000, is due) and after popping X it is accepted again -/
+example : (stepT true (runT true {} a3Ops) (.scanIdle 2999)).2 = .ok ∧ (runT true {} a3Ops).ms.map = [1, 2] ∧
+    priOf (runT true {} a3Ops) 2 = some 3000 ∧ priOf (runT true {} a3Ops) 1 = some 61000 := by decide
+example : (stepT true (runT true {} a3Ops) (.scanIdle 4000)).2 ≠ .ok :=
+  (released_by_first_scan_after_deadline_micro a3Ops 2 3000 4000 (by decide) (by decide) (by decide)).1
+example : (stepT true (runT true {} (a3Ops ++ [.scanPop 2 4000])) (.scanIdle 4000)).2 = .ok ∧
+    (runT true {} (a3Ops ++ [.scanPop 2 4000])).ms.map = [1] := by decide
+/-- non-vacuity of the stale exit: FIN of M (id 1) by connection 1 popped it from the map, the scan at 2000 meets M's
+heap entry (key 10 ≤ 2000): `.fail`, and the pending answer is there -/
+def staleOps : List TOp := [.plain (.put 1), .delMapPush 1 1 0 10, .plain (.ansMapPop 1 1 .fin)]
+example : (stepT true (runT true {} staleOps) (.scanPop 1 2000)).2 = .fail ∧
+    Pend.ans 1 1 .fin ∈ (runT true {} staleOps).ms.pend := by decide
+example : ∃ k a, Pend.ans k 1 a ∈ (runT true {} staleOps).ms.pend :=
+  stale_exit_needs_pending_answer staleOps 1 2000 (by decide)
+example : (stepT true (runT true {} [.plain (.put 1), .delMapPush 1 1 0 10]) (.scanPop 1 2000)).2 ≠ .fail :=
+  no_stale_exit_when_quiescent _ 1 2000 (by
+    have : (runT true {} [.plain (.put 1), .delMapPush 1 1 0 10]).ms.pend = [] := by decide
+    intro k i a; rw [this]; simp)
 
 end Nsq.Props.C04Micro
